@@ -250,11 +250,11 @@ def _returns_flag(f: FuncInfo) -> bool:
 
 
 def _flag_vars(f: FuncInfo) -> set[str]:
-    """Names that flow into the function's returned flag."""
-    if not (_returns_flag(f) or _returns_result(f)):
+    """Names that flow into the function's returned flag (or into a flag of the enclosing function declared nonlocal)."""
+    names: set[str] = set(_nonlocal_flags(f))
+    if not (_returns_flag(f) or _returns_result(f)) and not names:
         return set()
-    names: set[str] = set()
-    for r in _returns(f):
+    for r in (_returns(f) if (_returns_flag(f) or _returns_result(f)) else []):
         v = r.value
         if v is None:
             continue
@@ -267,10 +267,29 @@ def _flag_vars(f: FuncInfo) -> set[str]:
         elif not isinstance(v, ast.Call) or dotted_of(v.func) in ("bool", "int", "len"):
             names |= {x.id for x in ast.walk(v) if isinstance(x, ast.Name)}
     names -= {"bool", "int", "len", "True", "False", "self", "model"}
-    for _ in range(2):
+    for _ in range(4):
         for n in own_nodes(f.node):
+            if isinstance(n, ast.If) and isinstance(n.test, ast.Name) and any(_is_flag_set(x, names) for x in n.body[:2]):
+                # `if step: flag = True` folds `step` into the flag (what `if helper(...): flag = True` reads as once the
+                # helper's result is bound to a local)
+                names.add(n.test.id)
+                continue
             if isinstance(n, ast.Assign) and any(isinstance(t, ast.Name) and t.id in names for t in n.targets):
-                if isinstance(n.value, ast.Call) and dotted_of(n.value.func) in ("bool", "int", "len"):
+                if isinstance(n.value, ast.Name):
+                    # plain copy `flag = other` (what is left of `flag = helper(...)` once the helper is expanded)
+                    names.add(n.value.id)
+                    continue
+            if isinstance(n, ast.Assign) and len(n.targets) == 1 and isinstance(n.targets[0], ast.Tuple) and isinstance(n.value, ast.Tuple) \
+                    and len(n.targets[0].elts) == len(n.value.elts):
+                # `count, flag = c, m` (tuple-returning helper expanded): element-wise copies
+                for t, v in zip(n.targets[0].elts, n.value.elts):
+                    if isinstance(t, ast.Name) and t.id in names and isinstance(v, ast.Name):
+                        names.add(v.id)
+                continue
+            if isinstance(n, ast.Assign) and any(isinstance(t, ast.Name) and t.id in names for t in n.targets):
+                if False:
+                    pass
+                elif isinstance(n.value, ast.Call) and dotted_of(n.value.func) in ("bool", "int", "len"):
                     names |= {x.id for x in ast.walk(n.value) if isinstance(x, ast.Name)} - {"bool", "int", "len"}
                 # monotone combinations: flag = flag or other / flag | other / flag + other
                 elif (isinstance(n.value, ast.BoolOp) and isinstance(n.value.op, ast.Or)) or (
@@ -441,6 +460,14 @@ def _covered_by_test(cfg: CFG, node, st, flags: set[str], f: FuncInfo):
                 e = _flag_expr(v) if isinstance(v, ast.Call) and _result_ctor(v) else v
                 if e is not None and norm(e) in (f"bool({name})", f"len({name}) > 0", name):
                     return True, f"loop over `{name}` and the flag is bool({name})"
+            # the same with the flag assigned instead of returned (`flag = bool(S)` / `flag |= bool(S)` after the loop, which
+            # is what `flag = helper(...)` reads as once the helper is expanded): the assignment lies on every path from the
+            # write to the exit
+            later = {n.id for n in cfg.nodes if n.kind == "stmt" and isinstance(n.ast, (ast.Assign, ast.AugAssign)) and _targets_flag(n.ast, flags)
+                     and norm(n.ast.value) in (f"bool({name})", f"len({name}) > 0", name)
+                     and (isinstance(n.ast, ast.Assign) or isinstance(n.ast.op, (ast.BitOr, ast.Add)))}
+            if later and cfg.all_paths_through(node, later, {cfg.exit.id}, exc=False):
+                return True, f"loop over `{name}` and bool({name}) is folded into the flag on every path after it"
         p = getattr(p, "_parent", None)
     recv = None
     if isinstance(st, ast.Expr) and isinstance(st.value, ast.Call) and isinstance(st.value.func, ast.Attribute):
@@ -541,6 +568,11 @@ def rule_r3(ctx, passes, ef):
                 if not ok and isinstance(val, (ast.Call, ast.Attribute)):
                     # a per-iteration local (re-initialised each iteration) is not an accumulator
                     ok = _per_iteration_local(n, tgt, f)
+                if not ok:
+                    # a variable that only lives inside the loop body (never bound or read outside the loop) carries nothing
+                    # from one iteration to the next: it is the flag of one iteration (e.g. the expanded body of a
+                    # flag-returning helper), folded into the accumulator by another statement
+                    ok = _lives_inside_loop(n, tgt, f)
             ctx.check("R3", f"{f.local}: {norm(n)[:70]}", ok, f, n,
                       f"inside a loop the flag `{tgt}` is overwritten by a value that can be false: an earlier "
                       "modification is forgotten and the pass can report modified=False after changing the model",
@@ -558,6 +590,67 @@ def _per_iteration_local(n, tgt, f) -> bool:
             if tgt in names and any(isinstance(t, ast.Name) and t.id in names and t.id != tgt for t in s.targets):
                 return True
     return False
+
+
+def _lives_inside_loop(n, tgt, f) -> bool:
+    loop = next((a for a in _anc(n, f.node) if isinstance(a, (ast.For, ast.While))), None)
+    if loop is None or tgt in f.params:
+        return False
+    inside = {id(x) for x in ast.walk(loop)}
+    if any(isinstance(x, ast.Name) and x.id == tgt and id(x) in {id(y) for y in ast.walk(loop.target)} for x in ast.walk(loop.target)) if isinstance(loop, ast.For) else False:
+        return False
+    for x in ast.walk(f.node):
+        if isinstance(x, ast.Name) and x.id == tgt and id(x) not in inside:
+            return False
+        if isinstance(x, (ast.Nonlocal, ast.Global)) and tgt in x.names:
+            return False
+    # and it is assigned before it is read in every iteration (definite assignment over the loop body)
+    return _assigned_before_read(loop.body, tgt, False)[1]
+
+
+def _assigned_before_read(stmts, name: str, assigned: bool):
+    """(definitely assigned after stmts, no read of `name` before a definite assignment) - structural definite-assignment
+    analysis: both branches of an if must assign, loop bodies and try blocks may be skipped."""
+    ok = True
+
+    def reads(node):
+        return any(isinstance(x, ast.Name) and x.id == name and isinstance(x.ctx, ast.Load) for x in ast.walk(node))
+
+    def stores(node):
+        return any(isinstance(x, ast.Name) and x.id == name and not isinstance(x.ctx, ast.Load) for x in ast.walk(node))
+
+    for s in stmts:
+        if isinstance(s, ast.If):
+            if not assigned and reads(s.test):
+                ok = False
+            a1, ok1 = _assigned_before_read(s.body, name, assigned)
+            a2, ok2 = _assigned_before_read(s.orelse, name, assigned)
+            ok = ok and ok1 and ok2
+            assigned = assigned or (a1 and a2)
+        elif isinstance(s, (ast.For, ast.While, ast.With, ast.Try, ast.Match, ast.AsyncFor, ast.AsyncWith)):
+            if not assigned and reads(s):
+                # a nested block that both binds and reads the name: analyse its body on its own
+                inner_ok = True
+                for fld in ("body", "orelse", "finalbody"):
+                    blk = getattr(s, fld, None)
+                    if isinstance(blk, list) and blk and isinstance(blk[0], ast.stmt):
+                        inner_ok = inner_ok and _assigned_before_read(blk, name, assigned)[1]
+                for h in getattr(s, "handlers", []):
+                    inner_ok = inner_ok and _assigned_before_read(h.body, name, assigned)[1]
+                if isinstance(s, (ast.For, ast.While)) and reads(s.iter if isinstance(s, ast.For) else s.test):
+                    inner_ok = False
+                ok = ok and inner_ok
+            if isinstance(s, ast.With):
+                a, _ = _assigned_before_read(s.body, name, assigned)
+                assigned = assigned or a
+        else:
+            if not assigned and isinstance(s, (ast.Assign, ast.AnnAssign)) and s.value is not None and reads(s.value):
+                ok = False
+            elif not assigned and not isinstance(s, (ast.Assign, ast.AnnAssign)) and reads(s):
+                ok = False
+            if isinstance(s, (ast.Assign, ast.AnnAssign)) and stores(s) and getattr(s, "value", None) is not None:
+                assigned = True
+    return assigned, ok
 
 
 def _anc(node, stop):
